@@ -146,8 +146,7 @@ def journal_active_false_edges(ctx, inst, body, wj_nodes):
     return edges, sw
 
 
-def check_order(ctx):
-    inst = "C02.order"
+def check_order(ctx, inst="C02.order"):
     body = ctx.fn("write_buffer::process_write_batch", inst)
     if body is None:
         return
@@ -217,7 +216,7 @@ def check_order(ctx):
     ctx.check(val_e.has_field("PreparedWrite", "sector"), inst, "PROVENANCE", body.path,
               "value published into record.sector is PreparedWrite.sector", body.where(pub[0]), {"expr": val_e.show()})
     # who may publish record.sector
-    R.fieldw_within(ctx, "C02.order/sector-writers", "Record", "sector",
+    R.fieldw_within(ctx, inst + "/sector-writers", "Record", "sector",
                     ["write_buffer::process_write_batch", "recovery::*scan_and_rebuild_indexes", "Record::new",
                      "Record::new_from_bytes", "Record::new_deferred_with_ttl", "FeoxStore::scan_and_rebuild_indexes"], floor=2)
 
@@ -478,6 +477,59 @@ def check_retire(ctx):
     R.dom(ctx, inst, body, ret, pushes, "retire_extent precedes queuing the extent for marker writes", a_desc="Record::retire_extent")
 
 
+def check_successor(ctx):
+    """Record::successor_is_durable_or_deleted is the licence to destroy an acknowledged generation: its `true` must mean
+    a durable (sector > 0) or deleted (refcount == 0, no successor) tail was actually reached, and the memo flag
+    successor_safe must be set only once that verdict is known"""
+    inst = "C02.successor"
+    b = ctx.fn("Record::successor_is_durable_or_deleted", inst)
+    if b is None:
+        return
+    def on_field(name):
+        return lambda bb, n: R.recv_expr(bb, n).has_field("Record", name)
+    stores = ctx.sites(b, R.call("Atomic::store", "AtomicBool::store").filter(on_field("successor_safe"), "on successor_safe"), inst, floor=2)
+    falses = [n.id for n in b.nodes if n.kind == "assign" and not n.ev["dst"]["p"] and n.ev["dst"]["l"] == 0 and n.ev["rv"] == "use" and n.ev["a"].get("val") == 0]
+    trues = [n.id for n in b.nodes if n.kind == "assign" and not n.ev["dst"]["p"] and n.ev["dst"]["l"] == 0 and n.ev["rv"] == "use" and n.ev["a"].get("val") == 1]
+    ctx.check(len(falses) == 1, inst, "anchor", b.path, "one `false` verdict (found %d)" % len(falses), None)
+    ctx.check(len(trues) >= 1, inst, "anchor", b.path, "`true` verdicts present", None)
+    for st in stores:
+        v = b.nodes[st].ev["args"][1]
+        ctx.check(v.get("k") == "const" and v.get("val") == 1, inst, "PIN", b.path, "the memo is only ever set to true", b.where(st))
+        r, _ = A.reach(b, A.succs(b, st))
+        bad = [x for x in falses if x in r]
+        ctx.check(not bad, inst, "NEVER-AFTER", b.path, "successor_safe is memoised only after the verdict is known (no `false` reachable after the store)", b.where(st),
+                  None if not bad else {"false_at": b.where(bad[0])})
+        # and never inside the walk: a store in the loop would flag generations of a chain whose tail is still undecided
+        r2, _ = A.reach(b, A.succs(b, st))
+        loads = R.call("Atomic::load", "AtomicU64::load", "AtomicU32::load").filter(on_field("sector"), "sector load")(b)
+        ctx.check(not any(x in r2 for x in loads), inst, "NEVER-AFTER", b.path, "no generation is flagged while the chain is still being walked", b.where(st))
+    # the only way to `false`: a live tail (refcount != 0) without successor
+    rc = ctx.sites(b, R.call("Atomic::load", "AtomicU32::load", "AtomicUsize::load", "AtomicU64::load").filter(on_field("refcount"), "refcount load"), inst, exact=1)
+    def rc_zero(e):
+        return e.k == "bin" and e.extra == "Eq" and any(c.nid in rc for c in e.calls()) and e.has_const(val=0)
+    R.guard(ctx, inst, b, falses, A.pred_edges(b, rc_zero, "false"), "`false` only for a live tail generation (refcount != 0)")
+    # leaving the walk with `true` needs sector > 0, the memo, or a dead tail
+    sec = ctx.sites(b, R.call("Atomic::load", "AtomicU64::load", "AtomicU32::load").filter(on_field("sector"), "sector load"), inst, exact=1)
+    def sec_pos(e):
+        return e.k == "bin" and e.extra == "Lt" and e.a[0].k == "const" and (e.a[0].extra or {}).get("val") == 0 and any(c.nid in sec for c in e.a[1].calls())
+    ctx.check(len(A.pred_switches(b, sec_pos)) == 1, inst, "PIN", b.path, "durable means sector > 0 (strict)", None)
+    edges = A.pred_edges(b, sec_pos, "true") + A.pred_edges(b, rc_zero, "true")
+    memo = R.call("Atomic::load", "AtomicBool::load").filter(on_field("successor_safe"), "memo load")(b)
+    ctx.check(len(memo) == 2, inst, "anchor", b.path, "two memo loads (self, walked generation)", None)
+    edges += A.pred_edges(b, lambda e: any(c.nid in memo for c in e.calls()) and e.k == "call", "true")
+    # `None` successor of self (nothing newer exists)
+    first_succ = R.call("OnceLock::get").filter(lambda bb, n: R.recv_expr(bb, n).has_arg(idx=1) and not any(x.k == "local" for x in R.recv_expr(bb, n).walk()), "self.successor")(b)
+    edges += R.guard_edges_for_call(b, first_succ, "None")
+    R.guard(ctx, inst, b, trues + stores, edges, "`true` (and the memo) only after reaching a durable / memoised / deleted generation or when no successor exists")
+    # nobody else sets the memo
+    n_other = 0
+    for bb in ctx.prog.product_bodies():
+        if bb is b:
+            continue
+        n_other += len(R.call("Atomic::store", "Atomic::swap", "Atomic::fetch_or", "Atomic::compare_exchange", "AtomicBool::store", "AtomicBool::swap", "AtomicBool::fetch_or").filter(on_field("successor_safe"), "memo write")(bb))
+    ctx.check(n_other == 0, inst, "CALLERS", "-", "successor_safe is written only by successor_is_durable_or_deleted (found %d other writers)" % n_other, None)
+
+
 def _same_vec(body, n, re_nodes):
     """push receiver is the vector passed (by reference) to the retire_extents call"""
     recv = R.recv_expr(body, n)
@@ -651,4 +703,5 @@ def check(ctx):
     check_order(ctx)
     check_ack(ctx)
     check_retire(ctx)
+    check_successor(ctx)
     check_drop(ctx)
